@@ -45,6 +45,9 @@ CLAIMS = {
  "C06": dict(level="proof", ref="DESIGN.md 5 C06",
    text="PARTIAL. Coq theorems for the two completion rules: a lookup is done once none of its requests is in flight, which holds at the latest one request timeout after its last request and immediately for answered requests; the store phase of a put yields its outcome once what is outstanding has expired; a put that could send nothing fails at once. Whole calls (exactly one outcome, nothing left behind) under loss, duplication, overlap and clock jumps are checked on workloads of a real node.",
    note="No node-level transition model: the composition of the loop body is exercised, not proved. Real-time hangs inside flume/OS are outside the reach of the check; the timeout bound is the request timeout in force, which adapts to late replies."),
+ "C18": dict(level="proof", ref="DESIGN.md 5 C18",
+   text="Coq theorems over the mode rules and the adaptive state machine: a client marks its requests read-only, answers nothing and inserts no requester; a read-only requester is never inserted in either mode; a read-only reply is not used; votes for a new address trigger a ping to it, a ping request from that address clears the firewalled flag and the next refresh switches to server mode; over any history without a ping from the address currently believed public the node stays firewalled and a client; explicit server mode is never left. Tied to the code by scenarios on a real manually ticked node: every request kind (with tokens valid for the sender) to clients and servers with and without bootstrap nodes, lookups with read-only second-hop replies, puts with read-only acknowledgements, and adaptive timelines with votes for the real address or for an outside address that never pings back, pings from those addresses and 15-minute refreshes.",
+   note="Trusted: Coq kernel; the node's own address on loopback stands for 'reachable', an address whose owner never pings back stands for NAT (the NAT device itself is not modelled); ties among address votes are avoided by the generator (HashMap iteration order decides them in the code). A read-only reply still settles its transaction in the socket (the request is no longer in flight): modelled as such in Check18.rstep."),
  "C07": dict(level="proof", ref="DESIGN.md 5 C07",
    text="Coq theorems over the per-iteration transition of a lookup: after every iteration each of the 20 closest candidates among the seeds and all nodes listed in the answers received has been queried; requests only go to unvisited addresses and the visited set never shrinks; the candidate list stays strictly sorted (secure first, XOR) through every response; candidates come only from seeds and answers. Tied to the code in lock-step: the candidate list, responder list and visited set of a real lookup are compared with the model after every loop iteration, over scripted networks with multi-hop 'knows' relations and never-answering phantom nodes on public/private IPs.",
    note="Trusted: Coq kernel; state read through a cfg-guarded accessor; all answering peers are on loopback (exempt from BEP42), secure/insecure mixing enters through listed phantom nodes only. Loss-free delivery is how the scripted network behaves; the theorems do not need it."),
